@@ -10,37 +10,37 @@ CLAIMED = {
     "C01": dict(
         engine="E-CHAOS",
         technique="deterministic simulation with fault injection: concurrent programs run under hostile knobs, seeded schedules including starvation, cancellation at a seeded tick and clock jumps; crash monitor (Go panic in any task, worker process death) as the only oracle",
-        text="Claimed as a slice: programs whose crash-freedom depends on a coincidence the simulator controls (schedule, cancellation instant, timers, knob extremes, primitives used across threads). Ten chaos templates plus the generators of the other engines run with tiny stacks, pool and queue of 1, a cancel at a PRNG-chosen tick and clock jumps; a Go panic that reaches the top of any goroutine, or the death of the worker process, is a violation (stack-limit reports excepted). Sequential crash-freedom over all programs is input generation and is not claimed. Exploration level.",
+        text="Claimed as a slice: programs whose crash-freedom depends on a coincidence the simulator controls (schedule, cancellation instant, timers, knob extremes, primitives used across threads). Twelve chaos templates plus the generators of the other engines run with small stacks (the smallest ones in recycled worker processes), pool and queue of 1, a cancel at a PRNG-chosen tick and clock jumps; a Go panic that reaches the top of any goroutine, or the death of the worker process, is a violation (stack-limit reports excepted). Sequential crash-freedom over all programs is input generation and is not claimed. Exploration level.",
         design_ref="DESIGN.md 5.10",
     ),
     "C10": dict(
         engine="E-KNOB",
         technique="deterministic simulation with randomised tuning knobs and fault injection: knob vector (stack sizes, pool, queue, presize) drawn per run, forced value-stack reallocations at seeded calls (failpoint), seeded schedules; differential oracle against the default configuration",
-        text="Deterministic programs that stress what the knobs touch (deep recursion with live closures, generators resumed at other depths, async DAGs, large literals, bulk symbols) run under a knob vector drawn per run and up to five forced reallocations of the value stack at PRNG-chosen calls; stdout and error must equal the run at default sizes unless a stack limit is reported. Initial stacks below 64 slots are a listed known finding. Exploration level.",
+        text="Deterministic programs that stress what the knobs touch (deep recursion with live closures, generators and async bodies that assign locals between a reallocation and their next suspension, native methods calling back into bytecode, the generated plain / generator / async bodies of E-BODY, async DAGs, large literals, bulk symbols) run under a knob vector drawn per run and up to five forced reallocations of the value stack at PRNG-chosen calls; stdout and error must equal the run at default sizes unless a stack limit is reported. Initial stacks below 64 slots are a listed known finding (drawn rarely, each in a worker process that is recycled afterwards). Exploration level.",
         design_ref="DESIGN.md 5.7",
     ),
     "C11": dict(
         engine="E-CHK",
         technique="deterministic simulation: seeded token scheduler over the instrumented type checker and compiler, PRNG-controlled map order, differential oracle against the sequential configuration",
-        text="Seeded search over interleavings of the concurrently checked (and compiled) method bodies at MethodCheckConcurrencyLimit 2/3/8/100 for generated multi-method programs, with Go map iteration order as a further explored dimension. Each run is compared with the same source checked at limit 1: diagnostic multiset, acceptance and the behaviour of the compiled program on the VM must be equal, and no task may panic. Exploration level; the data-race clause is decided only through its statement-granularity consequences.",
+        text="Seeded search over interleavings of the concurrently checked (and compiled) method bodies at MethodCheckConcurrencyLimit 2/3/8/100 for generated multi-method programs, with Go map iteration order as a further explored dimension. Each run is compared with the same source checked at limit 1: diagnostic multiset, acceptance, the behaviour of the compiled program on the VM and the normalised bytecode of every function must be equal, and no task may panic. Programs include forward references, recursion, constants initialised from methods that share helpers, singleton and instance methods of one name, fresh symbol literals. Exploration level; the data-race clause is decided only through its statement-granularity consequences.",
         design_ref="DESIGN.md 5.3",
     ),
     "C15": dict(
         engine="E-BODY",
         technique="deterministic simulation: generated bodies run as plain / generator / async variants on pools of size 1-4 under seeded schedules, checked against an independent reference evaluator",
-        text="Generated function bodies are emitted as def, def * and async def (plus yield-bearing bodies with a list-building twin) and driven to completion under seeded schedules and pool sizes; the printed results of all variants must equal a big-integer reference evaluator, generators must yield in order and then signal the end, every promise must settle exactly once, nothing may deadlock or panic. Exploration level.",
+        text="Generated function bodies (three loop forms, early returns, throws, do/catch, helper calls that the async variant awaits in place at any operand depth) are emitted as def, def * and async def (plus yield-bearing bodies with a list-building twin) and driven to completion under seeded schedules and pool sizes; the printed results of all variants must equal a big-integer reference evaluator, generators must yield in order and then signal the end, every promise must settle exactly once, nothing may deadlock or panic. Exploration level.",
         design_ref="DESIGN.md 5.2",
     ),
     "C16": dict(
         engine="E-PROM",
         technique="deterministic simulation: promise DAG programs under seeded interleavings of AWAIT / continuation registration / settlement with pool 1-4 and queue capacity 1..4N, lost-wake-up and exactly-once oracle",
-        text="Generated programs build promise DAGs (leaf, timeout, throwing, chained, joined, guarded tasks, go threads awaiting synchronously) and run under seeded schedules with statement-level preemption inside Promise, ThreadPool, threadWorker and the AWAIT instructions. The run must end, each awaiter must be resumed exactly once (token multiset equals the reference evaluator's). Queue saturation below the enqueue bound is a listed known finding; any other deadlock or token anomaly is a violation. Exploration level.",
+        text="Generated programs build promise DAGs (leaf, timeout, throwing, natively resolved, chained, guarded tasks, joins whose awaits sit at different operand depths, Promise.wait, go threads awaiting synchronously, marathon programs with thousands of suspensions per worker) and run under seeded schedules with statement-level preemption inside Promise, ThreadPool, threadWorker and the AWAIT instructions. The run must end, each awaiter must be resumed exactly once (token multiset equals the reference evaluator's). Queue saturation below the enqueue bound is a listed known finding; any other deadlock or token anomaly is a violation. Exploration level.",
         design_ref="DESIGN.md 5.1",
     ),
     "C25": dict(
         engine="E-SYNC",
         technique="deterministic simulation: seeded schedules over real channels, mutexes, wait groups and Once (Go API clients and generated Elk programs), porcupine linearizability against FIFO-with-close, contract oracles, misuse sequences",
-        text="Go-API clients drive ChannelOfValue (peer close and cancellation at arbitrary steps) with porcupine checking the history against a FIFO queue with a closed flag; Mutex/RWMutex/WaitGroup clients carry shadow state that exposes any exclusion or counting violation; generated Elk programs cover producers/consumers, select, lock-protected updates, Once, WaitGroup and misuse sequences with documented-error expectations; a process death (Go fatal error) is attributed and reported. Exploration level.",
+        text="Go-API clients drive ChannelOfValue (peer close and cancellation at arbitrary steps) with porcupine checking the history against a FIFO queue with a closed flag; Mutex/RWMutex/WaitGroup clients carry shadow state that exposes any exclusion or counting violation; cancel-only histories require the cancellation alone to release every context-aware operation; lock/unlock misuse histories are checked with porcupine; generated Elk programs cover producers/consumers, select (also on channels closed by a peer, and one select site shared by several threads), lock-protected updates, Once and Once.memo, WaitGroup (also start/end races) and misuse sequences with documented-error expectations; a process death (Go fatal error) is attributed and reported. Exploration level.",
         design_ref="DESIGN.md 5.4",
     ),
     "C26": dict(
@@ -52,7 +52,7 @@ CLAIMED = {
     "C27": dict(
         engine="E-REPL",
         technique="deterministic simulation with fault injection: sessions of the real REPL evaluator with checker-rejected inputs and an injected checker failure at a seeded phase boundary as the faults, under seeded schedules of the parallel method checks; differential oracles (session without the rejected inputs, batch run of the accepted prefix)",
-        text="Generated sessions are fed to the real repl evaluator inside the simulator. The faults are inputs the checker rejects after partial work and a failpoint that fails a valid input at the k-th phase boundary of Checker.CheckProgram, which exercises the snapshot/restore path at every depth. Every other input must behave exactly as in the session with the rejected inputs removed, and accepted inputs must print what a batch run of the accepted prefix prints. Exploration level.",
+        text="Generated sessions are fed to the real repl evaluator inside the simulator. The faults are inputs the checker rejects after partial work and a failpoint that fails a valid input at the k-th phase boundary of Checker.CheckProgram, which exercises the snapshot/restore path at every depth. Every other input must behave exactly as in the session with the rejected inputs removed, and accepted inputs must print what a batch run of the accepted prefix prints (compared whenever only pure definitions precede the last redefinition; statically bound call sites after a redefinition are a listed known finding). Sessions cover methods, classes, mixins, constants, typedefs, closures over top-level locals, using, runtime errors. Exploration level.",
         design_ref="DESIGN.md 5.8",
     ),
     "C32": dict(
@@ -63,14 +63,14 @@ CLAIMED = {
     ),
     "C33": dict(
         engine="E-CANCEL",
-        technique="deterministic simulation with fault injection: context cancellation injected at a seeded scheduler tick into 32 non-terminating program shapes compiled with abort checks; bounded liveness under fair scheduling after the fault",
-        text="Each case compiles a non-terminating shape the way the REPL does, runs it in the main thread or a go thread, cancels the context at a PRNG-chosen tick (immediately if everything is blocked) and then requires, under fair round-robin, that the main thread ends with ExecutionAbortedError and every go thread ends within 600000 scheduler ticks. Context-less blocking operations (sync await, WaitGroup#wait, Mutex#lock, sleep) are listed known findings keyed by shape. Exploration level.",
+        technique="deterministic simulation with fault injection: context cancellation injected at a seeded scheduler tick into 47 non-terminating program shapes compiled with abort checks (single-shot or as a later input of an incremental session) and into Go-API clients of the context-aware channel operations; bounded liveness under fair scheduling after the fault",
+        text="Each case compiles a non-terminating shape the way the REPL does, runs it in the main thread or a go thread, cancels the context at a PRNG-chosen tick (immediately if everything is blocked) and then requires, under fair round-robin, that the main thread ends with ExecutionAbortedError and every go thread ends within 600000 scheduler ticks. Mutex#lock, the one blocking operation left without context support, is a listed known finding keyed by shape (sleep, the synchronous await and WaitGroup#wait were repaired). Exploration level.",
         design_ref="DESIGN.md 5.6",
     ),
     "C34": dict(
         engine="E-TEST",
         technique="deterministic simulation: the real test runner driven with generated suite trees and filters under seeded shuffle seeds, reporter stalls and event-queue capacities; exactly-once and exit-status oracle against a reference selection",
-        text="Slice of the property: exactly-once execution of the selected cases and the exit status, for every shuffle seed, reporter interleaving and event channel capacity. Generated suite trees with grep and path[:line] filters run through the real ext/std/test runner with the simulator's own recording reporter as a task that drains the bounded channel as slowly as the scheduler lets it. An empty selection exiting with failure is a listed known finding. Exploration level.",
+        text="Slice of the property: exactly-once execution of the selected cases and the exit status, for every shuffle seed, reporter interleaving and event channel capacity. Generated suite trees (hooks at any position, failing before_each hooks) with a grep and up to three path[:line] filters run through the real ext/std/test runner with the simulator's own recording reporter as a task that drains the bounded channel as slowly as the scheduler lets it or sleeps in simulated time; every case must also finish with the status its body and hooks imply. An empty selection exiting with failure is a listed known finding. Exploration level.",
         design_ref="DESIGN.md 5.9",
     ),
 }
